@@ -291,6 +291,8 @@ fn codec_sig(s: &str, import_failed: bool) -> String {
 
 fn gen_book(ctx: &Ctx, sink: &mut dyn FnMut(String)) {
     let n = if ctx.tier == Tier::Thorough { 8_000 } else { 200 };
+    // the fixed workbook in which every arm of the exporter's cell writer occurs
+    sink("c24 book arms".to_string());
     for i in 0..n {
         sink(format!("c24 book {}", ctx.seed.wrapping_mul(1_000_000) + i));
     }
@@ -309,11 +311,95 @@ fn split_line(l: &str) -> (String, Vec<(String, String)>) {
     (key, fields)
 }
 
+type Snap = std::collections::BTreeMap<String, Vec<(String, String)>>;
+
+/// Compare two snapshots. `phase` is `lost` (right after export+import) or `after-edit` (after the same edit was
+/// applied to both workbooks); `already` holds the (key, field) pairs that already differed in an earlier phase
+/// and are not reported again. Returns the number of differing fields.
+fn diff_snaps(
+    ma: &Snap,
+    mb: &Snap,
+    phase: &str,
+    seed: &str,
+    already: &mut std::collections::BTreeSet<(String, String)>,
+    seen: &mut std::collections::BTreeSet<String>,
+    at_cells: &mut std::collections::BTreeSet<String>,
+    fails: &mut Vec<(String, String)>,
+) -> usize {
+    let what = if phase == "lost" { "after export+import" } else { "after export+import and the same edit on both sides" };
+    let mut n = 0;
+    for (k, fa) in ma {
+        let aspect = k.split(':').next().unwrap_or("");
+        match mb.get(k) {
+            None => {
+                if !already.insert((k.clone(), "<key>".into())) {
+                    continue;
+                }
+                n += 1;
+                let sig = format!("c24:{phase}:{aspect}:missing");
+                if seen.insert(sig.clone()) {
+                    fails.push((sig, format!("seed {seed}: {k} {fa:?} is gone {what}")));
+                }
+            }
+            Some(fb) => {
+                // F24g: the importer inserted the implicit-intersection operator into this cell's formula; every
+                // other difference of the same cell (now or after the edit) is attributed to that
+                if aspect == "cell" {
+                    if let (Some((_, ca)), Some((_, cb))) = (fa.first(), fb.first()) {
+                        if ca != cb && cb.contains('@') && cb.replace('@', "") == ca.replace('@', "") {
+                            at_cells.insert(k.clone());
+                        }
+                    }
+                }
+                for (i, (name, va)) in fa.iter().enumerate() {
+                    let vb = fb.get(i).map(|x| x.1.as_str()).unwrap_or("<none>");
+                    if va != vb {
+                        if !already.insert((k.clone(), name.clone())) {
+                            continue;
+                        }
+                        n += 1;
+                        let mut sig = format!("c24:{phase}:{aspect}:{name}");
+                        if at_cells.contains(k) {
+                            sig.push_str(":at-sign-added");
+                        }
+                        if aspect == "name" && va.replacen('=', "", 1) == vb {
+                            // "=LAMBDA(..)" stored with its '=' comes back without it
+                            sig.push_str(":leading-equals");
+                        }
+                        if seen.insert(sig.clone()) {
+                            fails.push((sig, format!("seed {seed}: {k} {name}: {va} became {vb} {what}")));
+                        }
+                    }
+                }
+            }
+        }
+    }
+    for (k, fb) in mb {
+        if !ma.contains_key(k) {
+            if !already.insert((k.clone(), "<key>".into())) {
+                continue;
+            }
+            n += 1;
+            let aspect = k.split(':').next().unwrap_or("");
+            let sig = format!("c24:{phase}:{aspect}:extra");
+            if seen.insert(sig.clone()) {
+                fails.push((sig, format!("seed {seed}: {k} {fb:?} appeared {what}")));
+            }
+        }
+    }
+    n
+}
+
 fn eval_book(req: &str) -> ImplOut {
     let f: Vec<&str> = req.split(' ').collect();
-    let seed: u64 = f[2].parse().unwrap_or(1);
+    let seed = f.get(2).copied().unwrap_or("1").to_string();
     let res = catch_unwind(AssertUnwindSafe(|| {
-        let m = super::bookgen::gen_model(seed, 1);
+        let mut m = if seed == "arms" {
+            super::bookgen::gen_arms_model()
+        } else {
+            super::bookgen::gen_model(seed.parse().unwrap_or(1), 1)
+        };
+        let arms = super::bookgen::writer_arms(&m);
         let a = super::bookgen::snapshot(&m);
         let bytes = match save_xlsx_to_writer(&m, Cursor::new(Vec::new())) {
             Ok(c) => c.into_inner(),
@@ -329,80 +415,71 @@ fn eval_book(req: &str) -> ImplOut {
         };
         m2.evaluate();
         let b = super::bookgen::snapshot(&m2);
+        // behavioural comparison: the same edit on both sides (the arrays change size)
+        super::bookgen::apply_edit(&mut m);
+        super::bookgen::apply_edit(&mut m2);
+        let a2 = super::bookgen::snapshot(&m);
+        let b2 = super::bookgen::snapshot(&m2);
         if std::env::var("C24_DUMP").is_ok() {
-            for l in a.iter().filter(|l| l.starts_with("cell:")) {
-                eprintln!("A {}", l.replace('\u{1f}', " "));
-            }
-            for l in b.iter().filter(|l| l.starts_with("cell:")) {
-                eprintln!("B {}", l.replace('\u{1f}', " "));
+            for (tag, snap) in [("A", &a), ("B", &b), ("A'", &a2), ("B'", &b2)] {
+                for l in snap.iter().filter(|l| l.starts_with("cell:")) {
+                    eprintln!("{tag} {}", l.replace('\u{1f}', " "));
+                }
             }
         }
-        Ok((a, b))
+        Ok((a, b, a2, b2, arms))
     }));
     match res {
         Err(_) => ImplOut::new("panic".into()).fail("c24:panic", &format!("seed {seed}")),
         Ok(Err((sig, d))) => ImplOut::new("failed".into()).fail(&sig, &format!("seed {seed}: {d}")),
-        Ok(Ok((a, b))) => {
-            use std::collections::BTreeMap;
-            let ma: BTreeMap<String, Vec<(String, String)>> = a.iter().map(|l| split_line(l)).collect();
-            let mb: BTreeMap<String, Vec<(String, String)>> = b.iter().map(|l| split_line(l)).collect();
+        Ok(Ok((a, b, a2, b2, arms))) => {
             let mut out = ImplOut::new("done".into());
+            for arm in &arms {
+                out = out.tag(arm);
+            }
+            if seed == "arms" {
+                for arm in super::bookgen::ALL_ARMS {
+                    if !arms.iter().any(|x| x == arm) {
+                        out = out.tag(&format!("arm-not-produced-by-the-fixed-workbook:{arm}"));
+                    }
+                }
+            }
             // cells on a reference cycle have no value that is a function of the workbook (it depends on the
             // evaluation history: property C05/C07's domain); such workbooks are compared without their cells
-            let circular = a.iter().chain(b.iter()).any(|l| l.starts_with("cell:") && l.contains("#CIRC!"));
+            let circular = [&a, &b, &a2, &b2].iter().any(|s| s.iter().any(|l| l.starts_with("cell:") && l.contains("#CIRC!")));
             if circular {
                 out = out.tag("circular:cells-not-compared");
             }
-            let ma: BTreeMap<String, Vec<(String, String)>> =
-                ma.into_iter().filter(|(k, _)| !(circular && k.starts_with("cell:"))).collect();
-            let mb: BTreeMap<String, Vec<(String, String)>> =
-                mb.into_iter().filter(|(k, _)| !(circular && k.starts_with("cell:"))).collect();
-            let mut n = 0;
+            // a spill cell whose anchor is not an array formula is a stale spill left by the evaluator in the
+            // ORIGINAL workbook (property C31's subject); the file cannot express it, so such workbooks are
+            // compared without their cells as well
+            let orphan = [&a, &a2].iter().any(|s| s.iter().any(|l| l.starts_with("cell:") && l.contains("array=orphan-child")));
+            if orphan {
+                out = out.tag("stale-spill-in-original:cells-not-compared");
+            }
+            let skip_cells = circular || orphan;
+            let to_map = |v: &Vec<String>| -> Snap {
+                v.iter().map(|l| split_line(l)).filter(|(k, _)| !(skip_cells && k.starts_with("cell:"))).collect()
+            };
+            let (ma, mb, ma2, mb2) = (to_map(&a), to_map(&b), to_map(&a2), to_map(&b2));
+            for k in ma.keys() {
+                out = out.tag(k.split(':').next().unwrap_or(""));
+            }
+            for (_, fields) in ma.iter().filter(|(k, _)| k.starts_with("cell:")) {
+                if let Some((_, v)) = fields.iter().find(|(n, _)| n == "array") {
+                    out = out.tag(&format!("array:{}", v.split('(').next().unwrap_or("")));
+                }
+            }
+            let mut already = std::collections::BTreeSet::new();
             let mut seen = std::collections::BTreeSet::new();
-            for (k, fa) in &ma {
-                let aspect = k.split(':').next().unwrap_or("");
-                out = out.tag(aspect);
-                match mb.get(k) {
-                    None => {
-                        n += 1;
-                        let sig = format!("c24:lost:{aspect}:missing");
-                        if seen.insert(sig.clone()) {
-                            out = out.fail(&sig, &format!("seed {seed}: {k} {fa:?} is gone after export+import"));
-                        }
-                    }
-                    Some(fb) => {
-                        for (i, (name, va)) in fa.iter().enumerate() {
-                            let vb = fb.get(i).map(|x| x.1.as_str()).unwrap_or("<none>");
-                            if va != vb {
-                                n += 1;
-                                let mut sig = format!("c24:lost:{aspect}:{name}");
-                                if aspect == "cell" && name == "content" && vb.contains('@') && vb.replace('@', "") == va.replace('@', "") {
-                                    // the importer inserts the implicit-intersection operator
-                                    sig.push_str(":at-sign-added");
-                                }
-                                if aspect == "name" && va.replacen('=', "", 1) == vb {
-                                    // "=LAMBDA(..)" stored with its '=' comes back without it
-                                    sig.push_str(":leading-equals");
-                                }
-                                if seen.insert(sig.clone()) {
-                                    out = out.fail(&sig, &format!("seed {seed}: {k} {name}: {va} became {vb}"));
-                                }
-                            }
-                        }
-                    }
-                }
+            let mut fails = vec![];
+            let mut at_cells = std::collections::BTreeSet::new();
+            let n1 = diff_snaps(&ma, &mb, "lost", &seed, &mut already, &mut seen, &mut at_cells, &mut fails);
+            let n2 = diff_snaps(&ma2, &mb2, "after-edit", &seed, &mut already, &mut seen, &mut at_cells, &mut fails);
+            for (sig, d) in fails {
+                out = out.fail(&sig, &d);
             }
-            for (k, fb) in &mb {
-                if !ma.contains_key(k) {
-                    n += 1;
-                    let aspect = k.split(':').next().unwrap_or("");
-                    let sig = format!("c24:lost:{aspect}:extra");
-                    if seen.insert(sig.clone()) {
-                        out = out.fail(&sig, &format!("seed {seed}: {k} {fb:?} appeared after export+import"));
-                    }
-                }
-            }
-            out.ans = if n == 0 { "same".into() } else { format!("diff {n}") };
+            out.ans = if n1 + n2 == 0 { "same".into() } else { format!("diff {n1} after-edit {n2}") };
             out
         }
     }
